@@ -166,7 +166,7 @@ def run(prog, rep, tier):
     # ---- TOL
     raises = [r for r in S.select("raise", qname=Q) if r.exctype == "ValueError"]
     shuffles = [c for c in S.select("call", qname=Q) if c.callkind == "method" and c.target == ".shuffle"]
-    if len(raises) != 1 or len(raises[0].path) != 1 or raises[0].path[0][1] is not True:
+    if len(raises) != 1 or len(raises[0].path) != 1:
         if len(raises) == 1 and len(raises[0].path) > 1:
             rep.bad("TOL.guard", fwhere(f, raises[0].node), "the ratio-sum guard is reached only past another check (%s): vectors that fail it get a different exception "
                     "(or none) instead of the ValueError" % "; ".join(pred_fmt(npred(c, p_))[:60] for c, p_ in raises[0].path[:-1]))
@@ -174,7 +174,7 @@ def run(prog, rep, tier):
             rep.bad("TOL.guard", fwhere(f), "expected exactly one ValueError guard on the ratio sum, found %d" % len(raises))
     else:
         r = raises[0]
-        kind, val = tolerance_of(r.path[0][0])
+        kind, val = tolerance_of(r.path[0][0] if r.path[0][1] is True else ("unop", "not", r.path[0][0]))
         if kind == "onesided":
             rep.bad("TOL.guard", fwhere(f, r.node), val)
         elif kind == "exact":
